@@ -18,6 +18,7 @@
 //!   R12 `X.retain(|e| P)` -> explicit filter loop (Vec: swap + by-value for; VecDeque: rotate once)
 //!   R13 `for x in &mut V` -> counted while loop over `&mut V[i]`
 //!   R15 `for x in V.into_iter().rev()` -> `let mut t = V; while t.len() > 0 { let x = t.pop().unwrap(); .. }`
+//!   R16 `for x in SET` (named local HashSet of Copy elements, listed per function) -> `for r in SET.iter() { let x = *r; .. }`
 //!   R11 reference patterns in `for` / closure parameters / `Some(&x)` -> bind + deref
 //!   RS  pinned statement replacement   (request: replace_stmt)
 //!   RE  pinned expression replacement  (request: replace_expr)
@@ -84,6 +85,9 @@ struct ItemReq {
     /// force `&self` -> `&mut self` (callers of lock-elided writers)
     #[serde(default)]
     mutself: bool,
+    /// R16: names of local HashSet<Copy> values iterated by value (`for x in NAME`)
+    #[serde(default)]
+    setiter: Vec<String>,
 }
 
 #[derive(Serialize, Default)]
@@ -183,6 +187,7 @@ fn attrs_enabled(attrs: &[Attribute], feats: &[String]) -> std::result::Result<b
 // the rewriting visitor
 // ---------------------------------------------------------------------------------------------
 struct Rw<'a> {
+    setiter: Vec<String>,
     wrote_lock: bool,
     refpat: u32,
     retain: String,
@@ -461,6 +466,25 @@ impl<'a> VisitMut for Rw<'a> {
         visit_mut::visit_block_mut(self, b);
     }
 
+    fn visit_local_mut(&mut self, l: &mut Local) {
+        // `let x: Vec<T> = CHAIN.collect();` -> the Vec target is known from the annotation: give collect a turbofish
+        if let Pat::Type(pt) = &l.pat {
+            let is_vec = matches!(&*pt.ty, Type::Path(tp) if tp.path.segments.last().map(|s| s.ident == "Vec").unwrap_or(false));
+            if is_vec {
+                if let Some(init) = &mut l.init {
+                    if let Expr::MethodCall(mc) = &mut *init.expr {
+                        if mc.method == "collect" && mc.args.is_empty() && mc.turbofish.is_none() {
+                            let ty = &pt.ty;
+                            let tf: AngleBracketedGenericArguments = parse_quote!(::<#ty>);
+                            mc.turbofish = Some(tf);
+                        }
+                    }
+                }
+            }
+        }
+        visit_mut::visit_local_mut(self, l);
+    }
+
     fn visit_expr_struct_mut(&mut self, st: &mut ExprStruct) {
         let mut keep = punctuated::Punctuated::new();
         for fv in std::mem::take(&mut st.fields).into_iter() {
@@ -717,6 +741,22 @@ impl<'a> VisitMut for Rw<'a> {
         }
         // R13: `for x in &mut V` / `for x in V.iter_mut()` -> counted while loop over `&mut V[i]`
         // (done in visit_expr_mut because the loop expression itself is replaced)
+        // R16: `for x in SET` (by value, Copy elements) -> `for __r in SET.iter() { let x = *__r; .. }`
+        if let Expr::Path(p) = &*f.expr {
+            if let Some(id) = p.path.get_ident() {
+                if self.setiter.iter().any(|n| id == n) {
+                    let r = self.fresh("r");
+                    let pat = &f.pat;
+                    let stmts = &f.body.stmts;
+                    let nb: Block = parse_quote!({ let #pat = *#r; #(#stmts)* });
+                    let ne: Expr = parse_quote!(#id.iter());
+                    f.pat = Box::new(parse_quote!(#r));
+                    f.expr = Box::new(ne);
+                    f.body = nb;
+                    self.bump("R16.set_by_value");
+                }
+            }
+        }
         // R11: `for &x in ..` -> `for __r in .. { let x = *__r; .. }`
         if self.enabled("R11") {
             if let Pat::Reference(pr) = &*f.pat {
@@ -1216,7 +1256,7 @@ fn do_fn(items: &[Item], req: &ItemReq, feats: &[String]) -> std::result::Result
         counts.insert("RE.replace_expr".into(), rp.expr.iter().map(|x| x.1).sum());
     }
 
-    let mut rw = Rw { wrote_lock: false, refpat: 0, retain: req.retain.clone().unwrap_or_else(|| "vec".into()), feats, counts, err: None, fresh: 0, no: req.no_rewrite.clone() };
+    let mut rw = Rw { setiter: req.setiter.clone(), wrote_lock: false, refpat: 0, retain: req.retain.clone().unwrap_or_else(|| "vec".into()), feats, counts, err: None, fresh: 0, no: req.no_rewrite.clone() };
     // signature: strip attrs on params
     for a in sig.inputs.iter_mut() {
         match a {
